@@ -6,7 +6,9 @@ import (
 	"strings"
 	"time"
 
+	abci "github.com/cometbft/cometbft/abci/types"
 	sdk "github.com/cosmos/cosmos-sdk/types"
+	"github.com/cosmos/cosmos-sdk/types/query"
 	authtypes "github.com/cosmos/cosmos-sdk/x/auth/types"
 	banktypes "github.com/cosmos/cosmos-sdk/x/bank/types"
 	govv1 "github.com/cosmos/cosmos-sdk/x/gov/types/v1"
@@ -21,7 +23,8 @@ import (
 // process memory must not survive a context that is discarded).
 
 func round5Scenarios() []func() []monFailure {
-	return []func() []monFailure{scenOwnerAfterRolledBackRegistration, scenParamsAfterFailedProposal, scenRecreateOverExpiredStream, scenPartialUnlockWithOtherHolder, scenSignerListWithBlanks}
+	return []func() []monFailure{scenOwnerAfterRolledBackRegistration, scenParamsAfterFailedProposal, scenRecreateOverExpiredStream, scenPartialUnlockWithOtherHolder, scenSignerListWithBlanks,
+		scenRecheckAfterFeeChange, scenReregisterSameMoniker, scenSameBlockCancel, scenManyDenominationsSupply}
 }
 
 // C09 / C13: a transaction [register; record on the id it is about to receive; a failing message] is rolled back as a
@@ -235,7 +238,7 @@ func scenSignerListWithBlanks() []monFailure {
 	c := s.c
 	a, b := c.addrOf(0).String(), c.addrOf(1).String()
 	before := c.app.EnterpriseKeeper.GetParams(c.committedCtx())
-	for _, list := range []string{a + ", " + b, " " + a + "," + b, a + "," + b + " ", a + " ," + b} {
+	for _, list := range []string{a + ", " + b, " " + a + "," + b, a + "," + b + " ", a + " ," + b, a + "," + b + ",", "," + a + "," + b, a + ",," + b} {
 		submitted := before
 		submitted.EntSigners, submitted.MinAccepts = list, 2
 		var pid uint64
@@ -247,6 +250,7 @@ func scenSignerListWithBlanks() []monFailure {
 				usable++
 			} else {
 				s.fail("C16", 0, fmt.Sprintf("after a governance update with signer list %q the stored list %q has an entry %q no consumer can parse: %v", list, stored.EntSigners, e, err))
+				s.fail("C03", 0, fmt.Sprintf("the tally counts %d signers in the stored list %q, but the entry %q is nobody: the reject threshold (signers - MinAccepts) is off", len(strings.Split(stored.EntSigners, ",")), stored.EntSigners, e))
 			}
 		}
 		if usable < stored.MinAccepts {
@@ -254,6 +258,269 @@ func scenSignerListWithBlanks() []monFailure {
 		}
 		if len(s.failures) > 0 {
 			break
+		}
+	}
+	return s.failures
+}
+
+// ---- round 6 ----
+
+// checkRecheck runs CheckTx of type Recheck (what CometBFT does with every pending transaction after each block)
+func (c *chain) recheck(ts txSpec) txResult {
+	bz, err := c.buildTx(true, ts)
+	if err != nil {
+		return txResult{Code: 999999, Codespace: "harness", Log: err.Error()}
+	}
+	r := c.app.CheckTx(abci.RequestCheckTx{Tx: bz, Type: abci.CheckTxType_Recheck})
+	return txResult{r.Code, r.Codespace, r.Log, r.GasUsed, r.GasWanted, r.Data, r.Events}
+}
+
+// C06 / C16: a registry transaction admitted at the current fee is pending while governance changes the fee; the
+// mempool re-check after the block must measure it against the NEW parameters (DeliverTx never checks these fees).
+func scenRecheckAfterFeeChange() []monFailure {
+	s := &scen{c: newChain(fixedCfg()), name: "recheck-after-fee-change"}
+	defer s.c.close()
+	c := s.c
+	gov := authtypes.NewModuleAddress("gov").String()
+	s.blockStart(5 * time.Second)
+	s.blockEnd()
+	pend := map[bool]txSpec{}
+	for _, wrk := range []bool{true, false} {
+		ts := txSpec{msgs: []sdk.Msg{c.mRegRegister(wrk, 3, "pending", "n", "g", "t").m}, fee: nundCoins(1000), signers: []acct{c.accts[3]}}
+		if r, _ := c.check(ts); r.Code != 0 {
+			return s.failures // set-up did not work: nothing to observe
+		}
+		pend[wrk] = ts
+	}
+	wNew := wrktypes.NewParams(2000, 10, 5, "nund", 2, 5)
+	bNew := bcntypes.NewParams(2000, 10, 5, "nund", 2, 5)
+	var pid uint64
+	prop, found := s.govPass(&pid, &wrktypes.MsgUpdateParams{Authority: gov, Params: wNew}, &bcntypes.MsgUpdateParams{Authority: gov, Params: bNew})
+	if !found || prop.Status != govv1.StatusPassed {
+		return s.failures
+	}
+	for _, wrk := range []bool{true, false} {
+		if r := c.recheck(pend[wrk]); r.Code == 0 {
+			for _, prop := range []string{"C06", "C16"} {
+				s.fail(prop, 0, fmt.Sprintf("the re-check (CheckTx type Recheck) after a governance change of the registration fee from 1000 to 2000 nund still admits the pending registration (wrkchain=%v) offering 1000 nund", wrk))
+			}
+		}
+		ts := pend[wrk]
+		ts.fee = nundCoins(2000)
+		if r := c.recheck(ts); r.Code != 0 {
+			s.fail("C16", 0, fmt.Sprintf("the re-check refuses a registration (wrkchain=%v) offering the NEW fee of 2000 nund: %s", wrk, r.Log))
+		}
+	}
+	return s.failures
+}
+
+// C07 / C09: registering again with a moniker the same owner already uses must not touch the existing WRKChain / BEACON:
+// its recorded hashes stay what they were and a record at or below its last height stays refused.
+func scenReregisterSameMoniker() []monFailure {
+	s := &scen{c: newChain(fixedCfg()), name: "re-register-same-moniker"}
+	defer s.c.close()
+	c := s.c
+	for _, wrk := range []bool{true, false} {
+		mod := "BEACON"
+		if wrk {
+			mod = "WRKChain"
+		}
+		s.blockStart(5 * time.Second)
+		var id uint64
+		if wrk {
+			id, _ = c.app.WrkchainKeeper.GetHighestWrkChainID(c.ctx())
+		} else {
+			id, _ = c.app.BeaconKeeper.GetHighestBeaconID(c.ctx())
+		}
+		if r := s.tx(2, nundCoins(1000), c.mRegRegister(wrk, 2, "samemoniker", "name-one", "genesis-one", "t").m); r.Code != 0 {
+			s.blockEnd()
+			continue
+		}
+		key := func(i int) uint64 {
+			if wrk {
+				return uint64(i)
+			}
+			return uint64(c.now.Unix()) + uint64(i)
+		}
+		s.tx(2, nundCoins(10), c.mRegRecord(wrk, 2, id, key(1), []string{"first", "", "", "", ""}).m)
+		s.tx(2, nundCoins(10), c.mRegRecord(wrk, 2, id, key(2), []string{"second", "", "", "", ""}).m)
+		s.blockEnd()
+		snapshot := func() string {
+			if wrk {
+				wc, _ := c.app.WrkchainKeeper.GetWrkChain(c.ctx(), id)
+				b1, _ := c.app.WrkchainKeeper.GetWrkChainBlock(c.ctx(), id, 1)
+				b2, _ := c.app.WrkchainKeeper.GetWrkChainBlock(c.ctx(), id, 2)
+				return wc.String() + "|" + b1.String() + "|" + b2.String()
+			}
+			b, _ := c.app.BeaconKeeper.GetBeacon(c.ctx(), id)
+			t1, _ := c.app.BeaconKeeper.GetBeaconTimestampByID(c.ctx(), id, 1)
+			t2, _ := c.app.BeaconKeeper.GetBeaconTimestampByID(c.ctx(), id, 2)
+			return b.String() + "|" + t1.String() + "|" + t2.String()
+		}
+		s.blockStart(5 * time.Second)
+		before := snapshot()
+		s.tx(2, nundCoins(1000), c.mRegRegister(wrk, 2, "samemoniker", "name-two", "genesis-two", "t").m)
+		if after := snapshot(); after != before {
+			for _, prop := range []string{"C09", "C07"} {
+				s.fail(prop, 0, fmt.Sprintf("a second registration by the same owner with the same moniker changed %s %d: before %s, after %s", mod, id, before, after))
+			}
+		}
+		if wrk {
+			if r := s.tx(2, nundCoins(10), c.mRegRecord(wrk, 2, id, 1, []string{"rewrite", "", "", "", ""}).m); r.Code == 0 {
+				s.fail("C07", 0, fmt.Sprintf("after a second registration with the same moniker, a record at height 1 of WRKChain %d (last height 2) was accepted", id))
+			}
+			if b1, _ := c.app.WrkchainKeeper.GetWrkChainBlock(c.ctx(), id, 1); b1.Blockhash != "first" {
+				s.fail("C07", 0, fmt.Sprintf("the accepted record at height 1 of WRKChain %d now reads %q", id, b1.Blockhash))
+			}
+		}
+		s.blockEnd()
+	}
+	return s.failures
+}
+
+// C12 / C10: a cancel in the same block (same second) as the create, or as a claim, refunds the whole unreleased
+// remainder and leaves the escrow holding exactly the deposits of the remaining streams.
+func scenSameBlockCancel() []monFailure {
+	s := &scen{c: newChain(fixedCfg()), name: "cancel-in-the-same-block"}
+	defer s.c.close()
+	c := s.c
+	bal := func(i int) sdk.Int { return c.app.BankKeeper.GetBalance(c.ctx(), c.addrOf(i), "nund").Amount }
+	escrow := func() sdk.Int {
+		return c.app.BankKeeper.GetBalance(c.ctx(), moduleAddr(strtypes.ModuleName), "nund").Amount
+	}
+	deposits := func() sdk.Int {
+		t := sdk.ZeroInt()
+		c.app.StreamKeeper.IterateAllStreams(c.ctx(), func(_, _ sdk.AccAddress, st strtypes.Stream) bool {
+			if st.Deposit.Denom == "nund" {
+				t = t.Add(st.Deposit.Amount)
+			}
+			return false
+		})
+		return t
+	}
+	s.blockStart(5 * time.Second)
+	b0 := bal(0)
+	if r := s.tx(0, nundCoins(0), c.mStrCreate(0, 1, "nund", sdk.NewInt(6000), 10).m); r.Code != 0 {
+		s.blockEnd()
+		return s.failures
+	}
+	rc := s.tx(0, nundCoins(0), c.mStrCancel(0, 1).m)
+	if rc.Code != 0 || !bal(0).Equal(b0) || !escrow().Equal(deposits()) {
+		for _, prop := range []string{"C12", "C10"} {
+			s.fail(prop, 0, fmt.Sprintf("create 6000 then cancel in the same block: cancel code %d, sender balance %s (was %s), escrow %s, deposits %s", rc.Code, bal(0), b0, escrow(), deposits()))
+		}
+	}
+	s.blockEnd()
+	s.blockStart(5 * time.Second)
+	b0 = bal(0)
+	s.tx(0, nundCoins(0), c.mStrCreate(0, 1, "nund", sdk.NewInt(6000), 10).m)
+	s.blockEnd()
+	s.blockStart(100 * time.Second)
+	s.tx(1, nundCoins(0), c.mStrClaim(0, 1).m) // releases 1000
+	rc = s.tx(0, nundCoins(0), c.mStrCancel(0, 1).m)
+	if rc.Code != 0 || !bal(0).Equal(b0.Sub(sdk.NewInt(1000))) || !escrow().Equal(deposits()) {
+		for _, prop := range []string{"C12", "C10"} {
+			s.fail(prop, 0, fmt.Sprintf("claim then cancel in the same block, 100 s into a 6000 @ 10/s stream: cancel code %d, sender got back %s of the unreleased 5000, escrow %s, deposits %s", rc.Code, bal(0).Sub(b0.Sub(sdk.NewInt(6000))), escrow(), deposits()))
+		}
+	}
+	s.blockEnd()
+	return s.failures
+}
+
+// C17: more than 100 denominations sort before the native one in the bank's supply store (IBC vouchers "ibc/<HEX>"):
+// whatever page shape a client asks for - none at all, one big page, or a walk by key - every figure served is the
+// bank's supply, less locked eFUND for the native denomination only, and no denomination is served twice.
+func scenManyDenominationsSupply() []monFailure {
+	cfg := fixedCfg()
+	var extra sdk.Coins
+	for i := 0; i < 130; i++ {
+		extra = extra.Add(sdk.NewInt64Coin(fmt.Sprintf("ibc/%064X", 1000+i), int64(1000+i)))
+	}
+	cfg.extraCoins = extra
+	s := &scen{c: newChain(cfg), name: "supply-with-many-denominations"}
+	defer s.c.close()
+	c := s.c
+	ek := c.app.EnterpriseKeeper
+	s.blockStart(5 * time.Second)
+	s.tx(4, nundCoins(10), enttypes.NewMsgUndPurchaseOrder(c.addrOf(4), sdk.NewInt64Coin("nund", 1_000_000)))
+	s.tx(0, nundCoins(10), &enttypes.MsgProcessUndPurchaseOrder{PurchaseOrderId: 1, Decision: enttypes.StatusAccepted, Signer: c.addrOf(0).String()})
+	s.tx(1, nundCoins(10), &enttypes.MsgProcessUndPurchaseOrder{PurchaseOrderId: 1, Decision: enttypes.StatusAccepted, Signer: c.addrOf(1).String()})
+	s.blockEnd()
+	for i := 0; i < 2; i++ {
+		s.blockStart(5 * time.Second)
+		s.blockEnd()
+	}
+	ctx := c.committedCtx()
+	gctx := sdk.WrapSDKContext(ctx)
+	native := ek.GetParamDenom(ctx)
+	locked := ek.GetTotalLockedUnd(ctx).Amount
+	if !locked.IsPositive() {
+		return s.failures // set-up did not lock anything: nothing to observe
+	}
+	bank := map[string]sdk.Int{}
+	c.app.BankKeeper.IterateTotalSupply(ctx, func(coin sdk.Coin) bool { bank[coin.Denom] = coin.Amount; return false })
+	want := func(d string) sdk.Int {
+		if d == native {
+			return bank[d].Sub(locked)
+		}
+		return bank[d]
+	}
+	checkPage := func(how string, coins sdk.Coins, seen map[string]int) {
+		for _, x := range coins {
+			seen[x.Denom]++
+			if _, ok := bank[x.Denom]; !ok {
+				s.fail("C17", 0, fmt.Sprintf("TotalSupply (%s) serves %s which the bank does not have", how, x))
+			} else if !x.Amount.Equal(want(x.Denom)) {
+				s.fail("C17", 0, fmt.Sprintf("TotalSupply (%s) serves %s; the bank's supply is %s%s and %s %s are locked", how, x, bank[x.Denom], x.Denom, locked, native))
+			}
+			if seen[x.Denom] > 1 {
+				s.fail("C17", 0, fmt.Sprintf("TotalSupply (%s) serves %s more than once", how, x.Denom))
+			}
+		}
+	}
+	for _, h := range []struct {
+		how string
+		pg  *query.PageRequest
+		all bool
+	}{{"no pagination", nil, false}, {"one page of 1000", &query.PageRequest{Limit: 1000}, true}, {"one page of 1000, reverse", &query.PageRequest{Limit: 1000, Reverse: true}, true}} {
+		for hi, call := range []func(*enttypes.QueryTotalSupplyRequest) (*enttypes.QueryTotalSupplyResponse, error){
+			func(r *enttypes.QueryTotalSupplyRequest) (*enttypes.QueryTotalSupplyResponse, error) {
+				return ek.TotalSupply(gctx, r)
+			},
+			func(r *enttypes.QueryTotalSupplyRequest) (*enttypes.QueryTotalSupplyResponse, error) {
+				return ek.TotalSupplyOverwrite(gctx, r)
+			},
+		} {
+			var res *enttypes.QueryTotalSupplyResponse
+			var err error
+			if !safely(func() { res, err = call(&enttypes.QueryTotalSupplyRequest{Pagination: h.pg}) }) || err != nil || res == nil {
+				s.fail("C17", 0, fmt.Sprintf("TotalSupply (%s, handler %d) failed: %v", h.how, hi, err))
+				continue
+			}
+			seen := map[string]int{}
+			checkPage(fmt.Sprintf("%s, handler %d", h.how, hi), res.Supply, seen)
+			if h.all && len(seen) != len(bank) {
+				s.fail("C17", 0, fmt.Sprintf("TotalSupply (%s, handler %d) serves %d of the bank's %d denominations", h.how, hi, len(seen), len(bank)))
+			}
+		}
+	}
+	for _, limit := range []uint64{7, 50, 100} {
+		seen := map[string]int{}
+		var key []byte
+		for page := 0; page < 200; page++ {
+			res, err := ek.TotalSupply(gctx, &enttypes.QueryTotalSupplyRequest{Pagination: &query.PageRequest{Key: key, Limit: limit}})
+			if err != nil {
+				s.fail("C17", 0, fmt.Sprintf("TotalSupply walk (limit %d) page %d failed: %v", limit, page, err))
+				break
+			}
+			checkPage(fmt.Sprintf("walk by key, limit %d, page %d", limit, page), res.Supply, seen)
+			if res.Pagination == nil || len(res.Pagination.NextKey) == 0 {
+				break
+			}
+			key = res.Pagination.NextKey
+		}
+		if len(seen) != len(bank) {
+			s.fail("C17", 0, fmt.Sprintf("walking TotalSupply by key with limit %d serves %d of the bank's %d denominations", limit, len(seen), len(bank)))
 		}
 	}
 	return s.failures
